@@ -2,8 +2,11 @@
    fresh_step / run_fresh (Model/C20.v) is the container protocol that Score / Performance
    implement (checked on every run against real objects through C20.hist_ok); shared_step is
    the old shared-cursor design, kept as a refuted contrast.  The effect theorems are about
-   compositions of operations GIVEN their footprints; the footprints themselves (all empty)
-   are observed per run by the fingerprint differential of harness/props/c20.py. *)
+   compositions of CALLS (entry point x argument kind, Model/C20.v: entry, akind) GIVEN their
+   footprints; the footprints themselves (all empty) are observed per run and per (entry point,
+   argument kind) by the fingerprint differential of harness/props/c20.py.  The copy-then-modify
+   theorems are about the mechanism transpose / unfold_part_maximal use ("deep copy before
+   modification"), for every argument kind. *)
 From PV Require Import Lib.Base Model.C20 Proofs.C20.
 From Coq Require Import ZArith List Permutation.
 Import ListNotations.
@@ -30,6 +33,20 @@ Theorem nested_iteration_product : forall (A : Type) (parts : list A),
   nested_pairs (fresh_step parts) [] (length parts) = list_prod parts parts.
 Proof. exact @nested_iteration_product_lemma. Qed.
 Print Assumptions nested_iteration_product.
+
+(* the client program  for a, b in zip(c, c): emit (a, b)  (two live iterators advanced in turn)
+   yields every part paired with itself, in order *)
+Theorem zip_iteration : forall (A : Type) (parts : list A),
+  zip_pairs (fresh_step parts) [] (length parts) = map (fun x => (x, x)) parts.
+Proof. exact @zip_iteration_lemma. Qed.
+Print Assumptions zip_iteration.
+
+(* over the old design zip(c, c) on two parts yields the single pair (first, second) *)
+Theorem shared_cursor_zip_refuted :
+  exists parts : list Z, zip_pairs (shared_step parts) None (length parts) = [(1, 2)]%Z /\
+                         zip_pairs (shared_step parts) None (length parts) <> map (fun x => (x, x)) parts.
+Proof. exact shared_cursor_zip_refuted_lemma. Qed.
+Print Assumptions shared_cursor_zip_refuted.
 
 (* the old design (one cursor stored on the container): the nested loop over two parts yields
    [(a,a),(a,b)], and there is an interleaving in which an iteration is cut short *)
@@ -80,24 +97,132 @@ Theorem reordered_calls_agree : forall fs fs' : list eop, Forall read_only fs ->
 Proof. exact reordered_calls_agree_lemma. Qed.
 Print Assumptions reordered_calls_agree.
 
+(* The same over the alphabet of CALLS = (entry point, argument kind): for every semantics `sem`
+   of the calls and EVERY sequence of calls (any entry points, any argument kinds, any length, any
+   order, repetitions) all of which are read-only, the store (= the argument) is unchanged and
+   every result is the result of that call on the initial store. *)
+Theorem readonly_calls_pure : forall (sem : call -> eop) (cs : list call),
+  (forall c, In c cs -> read_only (sem c)) ->
+  forall s : store, run_calls sem cs s = (s, map (fun c => snd (e_run (sem c) s)) cs).
+Proof. exact readonly_calls_pure_lemma. Qed.
+Print Assumptions readonly_calls_pure.
+
+(* the same call (same entry point, same argument kind) at two places of any such sequence returns
+   the same result: the one it returns on the initial store *)
+Theorem repeated_call_same_result : forall (sem : call -> eop) (cs : list call),
+  (forall c, In c cs -> read_only (sem c)) ->
+  forall (s : store) (i j : nat) (c : call), nth_error cs i = Some c -> nth_error cs j = Some c ->
+  fst (run_calls sem cs s) = s /\
+  nth_error (snd (run_calls sem cs s)) i = Some (snd (e_run (sem c) s)) /\
+  nth_error (snd (run_calls sem cs s)) j = nth_error (snd (run_calls sem cs s)) i.
+Proof. exact repeated_call_same_result_lemma. Qed.
+Print Assumptions repeated_call_same_result.
+
+(* the calls made in any other order: every call keeps its result *)
+Theorem reordered_calls_same_results : forall (sem : call -> eop) (cs cs' : list call),
+  (forall c, In c cs -> read_only (sem c)) -> Permutation cs cs' ->
+  forall s : store, fst (run_calls sem cs' s) = s /\
+    Permutation (combine cs (snd (run_calls sem cs s))) (combine cs' (snd (run_calls sem cs' s))).
+Proof. exact reordered_calls_same_results_lemma. Qed.
+Print Assumptions reordered_calls_same_results.
+
+(* the observed footprint table (one row per (entry point, argument kind), evaluated per run by
+   table_empty): if a semantics writes at most what the table lists and the table is empty, every
+   sequence of calls covered by the table is pure *)
+Theorem empty_footprint_table_pure : forall (sem : call -> eop) (t : fp_table),
+  respects_table sem t -> table_empty t = true ->
+  forall cs : list call, (forall c, In c cs -> table_covers t c = true) ->
+  forall s : store, run_calls sem cs s = (s, map (fun c => snd (e_run (sem c) s)) cs).
+Proof. exact empty_table_pure_lemma. Qed.
+Print Assumptions empty_footprint_table_pure.
+
+(* equality of calls is decided by call_eqb (used by the trace checker) *)
+Theorem call_eqb_decides : forall c1 c2 : call, call_eqb c1 c2 = true <-> c1 = c2.
+Proof. exact call_eqb_eq. Qed.
+Print Assumptions call_eqb_decides.
+
 (* the checker applied to the traces observed on the implementation is sound and complete for
-   "read-only operations whose results are functions of the initial store" *)
-Theorem trace_ok_sound : forall (hs : store -> Z) (fs : list (Z * eop)) (s : store),
-  Forall read_only (map snd fs) ->
-  (forall i f g, In (i, f) fs -> In (i, g) fs -> f = g) ->
-  trace_ok (hs s, model_trace hs fs s) = true.
+   "read-only calls whose results are functions of the call and the initial store" *)
+Theorem trace_ok_sound : forall (hs : store -> Z) (sem : call -> eop) (cs : list call) (s : store),
+  (forall c, In c cs -> read_only (sem c)) ->
+  trace_ok (hs s, model_trace hs sem cs s) = true.
 Proof. exact trace_ok_sound_lemma. Qed.
 Print Assumptions trace_ok_sound.
 
 Theorem trace_ok_complete : forall (init : Z) (tr : list trow),
   trace_ok (init, tr) = true ->
-  exists resf : Z -> Z,
+  exists resf : call -> Z,
     Forall (fun r : trow => let '(o, b, a, x) := r in b = init /\ a = init /\ x = resf o) tr.
 Proof. exact trace_ok_complete_lemma. Qed.
 Print Assumptions trace_ok_complete.
 
-(* the effect hypotheses are satisfiable, and an in-place operation is not read-only *)
+(* the effect hypotheses are satisfiable (also by a semantics over the whole call alphabet), and an
+   in-place operation is not read-only *)
 Theorem effect_model_nontrivial :
-  (read_only ex_sum /\ read_only ex_len) /\ (respects_footprint ex_bump /\ ~ read_only ex_bump).
-Proof. exact (conj ex_sum_read_only ex_bump_respects). Qed.
+  (read_only ex_sum /\ read_only ex_len) /\ (respects_footprint ex_bump /\ ~ read_only ex_bump) /\
+  (forall c : call, read_only (ex_sem c)).
+Proof. exact (conj ex_sum_read_only (conj ex_bump_respects ex_sem_read_only)). Qed.
 Print Assumptions effect_model_nontrivial.
+
+(* Deep copy before modification.  Whatever the modification f, whatever cells the argument consists
+   of (roots) in whatever heap: when the modifying loop walks the copy (or nothing), every cell that
+   existed before the call keeps its value, and the result consists of new, distinct cells. *)
+Theorem copy_modify_preserves_argument : forall (w : walk) (f : Z -> Z) (h : heap) (roots : list nat),
+  w <> WalkArgument ->
+  firstn (length h) (fst (copy_modify w f h roots)) = h /\
+  Forall (fun l => (length h <= l)%nat) (snd (copy_modify w f h roots)) /\
+  NoDup (snd (copy_modify w f h roots)) /\
+  (length h <= length (fst (copy_modify w f h roots)))%nat.
+Proof. exact copy_modify_preserves_argument_lemma. Qed.
+Print Assumptions copy_modify_preserves_argument.
+
+(* the result holds the modified values of the argument (loop over the copy) / the values of the
+   argument (loop over nothing) *)
+Theorem copy_modify_result : forall (f : Z -> Z) (h : heap) (roots : list nat),
+  values (fst (copy_modify WalkCopy f h roots)) (snd (copy_modify WalkCopy f h roots)) = map f (values h roots) /\
+  values (fst (copy_modify WalkNothing f h roots)) (snd (copy_modify WalkNothing f h roots)) = values h roots.
+Proof. exact copy_modify_result_lemma. Qed.
+Print Assumptions copy_modify_result.
+
+(* called twice in a row: the argument is still as it was and both results hold the same values *)
+Theorem copy_modify_repeatable : forall (w : walk) (f : Z -> Z) (h : heap) (roots : list nat),
+  w <> WalkArgument -> Forall (fun l => (l < length h)%nat) roots ->
+  firstn (length h) (fst (fst (call_twice w f h roots))) = h /\
+  snd (fst (call_twice w f h roots)) = snd (call_twice w f h roots).
+Proof. exact copy_modify_repeatable_lemma. Qed.
+Print Assumptions copy_modify_repeatable.
+
+(* the slip "walk the parts of the ARGUMENT" is refuted: the argument changes, the first result is
+   an unmodified copy, the second call returns something else (finite witness, vm_compute) *)
+Theorem walk_argument_refuted :
+  exists (f : Z -> Z) (h : heap) (roots : list nat),
+    Forall (fun l => (l < length h)%nat) roots /\
+    firstn (length h) (fst (copy_modify WalkArgument f h roots)) <> h /\
+    values (fst (copy_modify WalkArgument f h roots)) (snd (copy_modify WalkArgument f h roots)) = values h roots /\
+    snd (fst (call_twice WalkArgument f h roots)) <> snd (call_twice WalkArgument f h roots).
+Proof. exact walk_argument_refuted_lemma. Qed.
+Print Assumptions walk_argument_refuted.
+
+(* transpose as modelled (transpose_walk: which parts the loop walks for each argument kind): for
+   EVERY argument kind the argument is unchanged after one and after two calls, and the two results
+   hold the same values *)
+Theorem transpose_every_kind : forall (k : akind) (f : Z -> Z) (h : heap) (roots : list nat),
+  Forall (fun l => (l < length h)%nat) roots ->
+  firstn (length h) (fst (copy_modify (transpose_walk k) f h roots)) = h /\
+  firstn (length h) (fst (fst (call_twice (transpose_walk k) f h roots))) = h /\
+  snd (fst (call_twice (transpose_walk k) f h roots)) = snd (call_twice (transpose_walk k) f h roots).
+Proof. exact transpose_every_kind_lemma. Qed.
+Print Assumptions transpose_every_kind.
+
+(* the checker run on the observed transpose calls accepts everything the model produces ... *)
+Theorem cow_ok_sound : forall (k : akind) (f : Z -> Z) (before : list Z),
+  let '(h2, v1, v2) := call_twice (transpose_walk k) f before (seq 0 (length before)) in
+  cow_ok (k, before, firstn (length before) h2, v1, v2) = true.
+Proof. exact cow_ok_sound_lemma. Qed.
+Print Assumptions cow_ok_sound.
+
+(* ... and accepts only observations in which the argument is as before and the results are equal *)
+Theorem cow_ok_meaning : forall (k : akind) (before after res1 res2 : list Z),
+  cow_ok (k, before, after, res1, res2) = true -> after = before /\ res1 = res2.
+Proof. exact cow_ok_meaning_lemma. Qed.
+Print Assumptions cow_ok_meaning.
